@@ -1,6 +1,6 @@
 //verif:pkg .
 //verif:use servers_mcp
-//verif:bound chains of 0..4 middlewares (quick: 0..3) over behaviours {pass, modify-request, modify-result, short-circuit, fail}, both option forms (one WithMiddleware call with all / one call per middleware), tools/call and ping requests and a notification, on the Streamable server (stateless JSON) and the legacy SSE server
+//verif:bound chains of 0..4 middlewares (quick: 0..3) over behaviours {pass, replace the request by a modified copy, modify the request in place, modify-result, short-circuit, fail} (the tool handler records the modifications it sees), both option forms (one WithMiddleware call with all / one call per middleware), tools/call and ping requests and a notification, on the Streamable server (stateless JSON) and the legacy SSE server
 package mcp
 
 import (
@@ -14,6 +14,7 @@ import (
 type c15Trace struct {
 	events []string
 	tokens []interface{}
+	tags   []string // "tag-<layer>" arguments the tool handler saw
 }
 
 var errC15 = errors.New("middleware-failed")
@@ -31,9 +32,29 @@ func c15Middleware(tr *c15Trace, idx int, behaviour int) Middleware {
 			switch behaviour {
 			case 0: // pass
 				res, err = next(ctx, req)
-			case 1: // modify request: tag the arguments
+			case 1: // modify request by substitution: a copy carrying one more argument goes down the chain
+				nr := *req
+				np := map[string]interface{}{}
 				if pm, ok := req.Params.(map[string]interface{}); ok {
-					pm["tag-"+name] = true
+					for k, v := range pm {
+						np[k] = v
+					}
+				}
+				args := map[string]interface{}{}
+				if am, ok := np["arguments"].(map[string]interface{}); ok {
+					for k, v := range am {
+						args[k] = v
+					}
+				}
+				args["tag-"+name] = true
+				np["arguments"] = args
+				nr.Params = np
+				res, err = next(ctx, &nr)
+			case 5: // modify request in place
+				if pm, ok := req.Params.(map[string]interface{}); ok {
+					if am, ok := pm["arguments"].(map[string]interface{}); ok {
+						am["tag-"+name] = true
+					}
 				}
 				res, err = next(ctx, req)
 			case 2: // modify result: wrap
@@ -65,7 +86,7 @@ func c15Reference(b []int) (trace []string, outcome int, layer int, wrappers []i
 		trace = append(trace, names[i]+"<")
 		o, l := 0, -1
 		switch b[i] {
-		case 0, 1:
+		case 0, 1, 5:
 			o, l = run(i + 1)
 		case 2:
 			o, l = run(i + 1)
@@ -107,7 +128,7 @@ func c15Run(legacy bool) {
 	n := vChoice("n", maxN+1)
 	b := make([]int, n)
 	for i := range b {
-		b[i] = vChoice("behaviour", 5)
+		b[i] = vChoice("behaviour", 6)
 	}
 	grouped := vBool("grouped")
 	tr := &c15Trace{}
@@ -118,6 +139,11 @@ func c15Run(legacy bool) {
 	handler := func(ctx context.Context, r *CallToolRequest) (*CallToolResult, error) {
 		tr.events = append(tr.events, "H")
 		tr.tokens = append(tr.tokens, ctx.Value(c15Key{}))
+		for _, nm := range []string{"m1", "m2", "m3", "m4"} {
+			if r.Params.Arguments["tag-"+nm] == true {
+				tr.tags = append(tr.tags, nm)
+			}
+		}
 		return NewTextResult("handled"), nil
 	}
 	ctxFunc := func(ctx context.Context, r *http.Request) context.Context {
@@ -176,6 +202,16 @@ func c15Run(legacy bool) {
 	}
 	wantTrace, outcome, layer, wrappers := c15Reference(b)
 	vAssert("onion-trace", c15SameTrace(tr.events, wantTrace))
+	if outcome == 0 {
+		// the handler ran below every layer: it sees the request as modified by all of them
+		var wantTags []string
+		for i := range b {
+			if b[i] == 1 || b[i] == 5 {
+				wantTags = append(wantTags, []string{"m1", "m2", "m3", "m4"}[i])
+			}
+		}
+		vAssert("handler-sees-the-request-as-modified-by-the-layers", c15SameTrace(tr.tags, wantTags))
+	}
 	for _, tok := range tr.tokens {
 		vAssert("own-context-everywhere", tok == "tok")
 	}
